@@ -60,6 +60,7 @@ inductive Stmt where
   | closeStream (s : Nat)
   | exitproc (k : Nat)
   | enter                 -- the statements up to the matching `leave` run inside one child fiber of the task (try / defer / coro body)
+  | enterDl (us : Nat)    -- (ev/with-deadline sec …statements…): a coro body guarded by a deadline timer
   | leave
   | goSelf                -- (ev/go (fiber/root)): the running task schedules itself
   | finish (k : Nat)      -- the worker thread of threaded call k is released (FIFO written) and has posted its completion
@@ -72,6 +73,7 @@ structure IFiber where
   started : Bool := false
   spawned : Bool := false
   bodies : List Nat := []
+  blocks : List (Option Nat) := []     -- open blocks, innermost first; `some b` = with-deadline body b
   sop : Option SOp := none
   deriving Inhabited
 
@@ -379,6 +381,7 @@ def startWait (s : IS) (f : Nat) : Wait → IS × Outcome
 
 def isMarker : Stmt → Bool
   | .enter => true
+  | .enterDl _ => true
   | .leave => true
   | _ => false
 
@@ -426,8 +429,22 @@ def runFiber (s : IS) (f : Nat) : Nat → IS
       | .finish k =>
           let s := emit s s!"L {s.w.now} {fname s f} :settle true"
           runFiber (next { s with pendingThr := s.pendingThr ++ [k] }) f fuel
-      | .enter => runFiber (next { s with w := step s.cfg s.w (.childEnter f) }) f fuel
-      | .leave => runFiber (next { s with w := step s.cfg s.w (.childLeave f) }) f fuel
+      | .enter =>
+          let s := { s with w := step s.cfg s.w (.childEnter f), fibers := s.fibers.modify f fun fb => { fb with blocks := none :: fb.blocks } }
+          runFiber (next s) f fuel
+      | .enterDl us =>
+          -- `(let [f (coro …)] (ev/deadline sec nil f) (resume f))`
+          let b := s.nextBody
+          let s := { s with nextBody := b + 1, w := step s.cfg s.w (.bodyStart b) }
+          let s := addTimerH s f (.deadline b) us
+          let s := { s with w := step s.cfg s.w (.childEnter f), fibers := s.fibers.modify f fun fb => { fb with blocks := some b :: fb.blocks } }
+          runFiber (next s) f fuel
+      | .leave =>
+          let w := match fb.blocks.head? with
+            | some (some b) => step s.cfg s.w (.bodyDone b)
+            | _ => s.w
+          let s := { s with w := step s.cfg w (.childLeave f), fibers := s.fibers.modify f fun fb => { fb with blocks := fb.blocks.drop 1 } }
+          runFiber (next s) f fuel
       | .goSelf => runFiber (next { s with w := step s.cfg s.w (.spawn f) }) f fuel
 
 /-- a task was executed for fiber `f` -/
